@@ -301,6 +301,8 @@ def run(check):
   elif bs.bound is None and not bs.problems:
     r_b.violate('empty queue', tq, bs.loop, 'popleft() on an empty queue raises IndexError out of takeSomeFromQueue: the batch taken so far '
                 'has left the queue and is lost', construct='except IndexError')
+  rule_receiver_state(check, cx, check.rule('R-C15-receiver-state', 1, 'the listeners store nothing under the names the Twisted framing classes use for their own state'))
+  rule_default_identity(check, cx, check.rule('R-C15-default-identity', 1, 'setting-switched rewrites of the datapoint are off under the built-in defaults'))
 
 
 def _bounded_while(cx, fn, loops):
@@ -417,3 +419,96 @@ def decoder_routes(cx, se, dfn):
         d0_src.add(('?', show(alt)))
         d1_src.add(('?', show(alt)))
   return m_src, d0_src, d1_src, calls
+
+
+def rule_receiver_state(check, cx, rule):
+  """the listeners do not store attributes under names the Twisted framing classes use for their own state (`paused`, `_buffer`,
+  `_unprocessed` ...): IntNStringReceiver.dataReceived stops handing out the complete frames of a segment while `self.paused` is
+  set, and nothing re-enters it on resume - frames the relay wrote are then never ingested.  (Names are read from the
+  twisted.protocols.basic source in the repository's environment; shared with R-C01-stateless.)"""
+  from .c01 import _twisted_basic, receivers
+  base, subs = receivers(check)
+  tb = _twisted_basic()
+  if tb is None:
+    check.notes.append('twisted source not found: framing-state names not inspected (trusted)')
+    rule.ok('twisted source not available: trusted', 'twisted.protocols.basic')
+    return
+  tree = ast.parse(open(tb).read())
+  tw_state = set()
+  for c in [n for n in tree.body if isinstance(n, ast.ClassDef) and n.name in (
+      'LineOnlyReceiver', 'IntNStringReceiver', 'Int32StringReceiver', '_PauseableMixin', '_RecvdCompatHack', 'LineReceiver')]:
+    for st in c.body:
+      if isinstance(st, (ast.Assign, ast.AnnAssign)):
+        for t in (st.targets if isinstance(st, ast.Assign) else [st.target]):
+          if isinstance(t, ast.Name):
+            tw_state.add(t.id)
+    for f in [n for n in c.body if isinstance(n, ast.FunctionDef)]:
+      for x in ast.walk(f):
+        if isinstance(x, ast.Attribute) and isinstance(x.ctx, ast.Store) and isinstance(x.value, ast.Name) and x.value.id == 'self':
+          tw_state.add(x.attr)
+  tw_state -= {'MAX_LENGTH', 'delimiter'}
+  clash = []
+  for cls in [base] + subs:
+    for a in cls.attrs:
+      if a in tw_state:
+        clash.append((cls, None, a))
+    for mname, m in cls.methods.items():
+      for x in walk_no_nested(m.node, include_self=False):
+        if isinstance(x, ast.Attribute) and isinstance(x.ctx, ast.Store) and isinstance(x.value, ast.Name) and m.params and \
+           x.value.id == m.params[0] and x.attr in tw_state:
+          clash.append((cls, m, x.attr))
+  for cls, m, a in clash:
+    rule.violate('%s shadows Twisted framing state' % cls.name, m if m is not None else cls.key, None, '%s stores an attribute named `%s`, '
+                 'which the Twisted framing base classes use for their own state: the frame loop of dataReceived stops or skips '
+                 'depending on it, so complete frames the relay transmitted can stay undelivered' % (cls.name, a),
+                 construct='%s.%s' % (cls.name, a))
+  if not clash:
+    rule.ok('no listener attribute shadows Twisted framing state (%d names checked)' % len(tw_state), tb)
+
+
+def rule_default_identity(check, cx, rule):
+  """under the built-in configuration the listener passes the decoded datapoint on unchanged: every rewrite of the datapoint in
+  MetricReceiver.metricReceived that is switched by a setting (`if settings.MIN_TIMESTAMP_RESOLUTION: datapoint = ...`) is OFF
+  for that setting's built-in default in carbon.conf - a daemon (or a harness) that does not set the option keeps timestamps
+  exactly as the relay encoded them."""
+  from ..rulelib import conf_defaults
+  defaults = conf_defaults(check.repo)
+  fn = cx.fn('carbon.protocols', 'MetricReceiver.metricReceived')
+  if not rule.require(defaults is not None and fn is not None and len(fn.params) >= 3, 'defaults table / MetricReceiver.metricReceived not found'):
+    return
+  dp = fn.params[2]
+  copies = {}
+  for st in ast.walk(fn.node):
+    if isinstance(st, ast.Assign) and len(st.targets) == 1 and isinstance(st.targets[0], ast.Name) and \
+       isinstance(st.value, ast.Attribute) and isinstance(st.value.value, ast.Name) and st.value.value.id == 'settings':
+      copies.setdefault(st.targets[0].id, set()).add(st.value.attr)
+  n = 0
+  for t in ast.walk(fn.node):
+    if not isinstance(t, ast.If):
+      continue
+    # a branch taken on the bare truth of an option (`if res:` / `if settings.X:`) that builds a new (timestamp, value) pair
+    tt = t.test
+    rewriting = t.body
+    if isinstance(tt, ast.UnaryOp) and isinstance(tt.op, ast.Not):
+      tt, rewriting = tt.operand, t.orelse          # `if not res: keep  else: rewrite`
+    if isinstance(tt, ast.Name):
+      opts = set(copies.get(tt.id, set()))
+    elif isinstance(tt, ast.Attribute) and isinstance(tt.value, ast.Name) and tt.value.id == 'settings':
+      opts = {tt.attr}
+    else:
+      continue
+    if not any(isinstance(s_, ast.Assign) and isinstance(s_.value, ast.Tuple) and len(s_.value.elts) == 2 for b in rewriting for s_ in ast.walk(b)):
+      continue
+    for o in sorted(opts):
+      n += 1
+      d = defaults.get(o)
+      if d is None:
+        rule.ok('%s has no built-in default (set by the operator only)' % o, fn.loc(t))
+      elif isinstance(d, ast.Constant) and not d.value:
+        rule.ok('rewrite switched by %s is off by default (%r)' % (o, d.value), fn.loc(t))
+      else:
+        rule.violate('datapoint rewritten under the built-in configuration', 'carbon.conf:<module>', d, 'the built-in default of %s is `%s`: '
+                     'with it the listener rewrites every datapoint (`%s`), so a timestamp such as 1500000000.25 sent over the pickle '
+                     'protocol is not ingested as encoded unless the operator switches the option off'
+                     % (o, short(d, 30), short((rewriting or t.body)[0], 60)), construct='defaults[%s]' % o)
+  rule.require(n >= 1, 'no setting-switched rewrite of the datapoint found in metricReceived (idiom changed?)')
